@@ -9,6 +9,7 @@ import (
 	ibcexported "github.com/cosmos/ibc-go/v8/modules/core/exported"
 
 	forwardercomp "github.com/noble-assets/orbiter/v2/keeper/component/forwarder"
+	adaptertypes "github.com/noble-assets/orbiter/v2/types/component/adapter"
 	forwardertypes "github.com/noble-assets/orbiter/v2/types/component/forwarder"
 	"github.com/noble-assets/orbiter/v2/types/core"
 	"github.com/noble-assets/orbiter/v2/zzverif/verif"
@@ -18,6 +19,7 @@ func init() {
 	reg("H_C07_abort", H_C07_abort)
 	reg("H_C08_discarded", H_C08_discarded)
 	reg("H_C03_fees2", H_C03_fees2)
+	reg("H_C16_sequence", H_C16_sequence)
 }
 
 // H_C07_abort: the wrapped application may ABORT (out of gas while handling the packet is a panic that baseapp turns into
@@ -95,3 +97,46 @@ func H_C08_discarded() {
 // H_C03_fees2: the failure bits of H_C03_faults with TWO fee entries (a payment that fails may be followed by one that
 // succeeds: the transfer is refused all the same).
 func H_C03_fees2() { H_C03_faults() }
+
+// H_C16_sequence: whether a token is "returning over the channel it left on" is a function of THIS packet's source port and
+// channel. After a legitimate packet of transfer/channel-7/uusdc over channel-7, the same denomination string arrives
+// over another channel (for that channel the token is native to the SENDER: ICS-20 mints a voucher) — and the other way
+// round. (Adapters and parsers are long-lived: nothing remembered about a denomination may replace the check.)
+func H_C16_sequence() {
+	w := NewWorld(false)
+	w.L.Set(escrow, nativeDenom, math.NewInt(1000000))
+	chans := []string{"channel-7", "channel-8"}
+	first := verif.Choose("first-source-channel", 2)
+	denom := "transfer/" + chans[verif.Choose("voucher-prefix-channel", 2)] + "/uusdc"
+	send := func(src string, seq uint64) ibcexported.Acknowledgement {
+		d := transfertypes.FungibleTokenPacketData{Denom: denom, Amount: "1000", Sender: "sender", Receiver: core.ModuleAddress.String(), Memo: internalPayloadMemo(user1.String())}
+		p := packetOf(verif.EncodeICS20(d))
+		p.SourceChannel, p.Sequence = src, seq
+		return w.MW.OnRecvPacket(w.Ctx, p, relayerAddr)
+	}
+	a1 := send(chans[first], 1)
+	returning1 := denom == "transfer/"+chans[first]+"/uusdc"
+	verif.Assert(a1.Success() == returning1, "first-packet-accepted-iff-returning-over-its-own-channel")
+	w.Int.reqs = nil
+	second := 1 - first
+	returning2 := denom == "transfer/"+chans[second]+"/uusdc"
+	// the gate itself (what the middleware asks the adapter before anything else happens): a packet that is not returning
+	// over its own channel is not adapted into an orbiter packet — the forwarder's balance precondition would refuse it
+	// later anyway, but by then the hooks have acted on the wrong coin
+	ccID, err := core.NewCrossChainID(core.PROTOCOL_IBC, dstChannel)
+	must(err)
+	d2 := transfertypes.FungibleTokenPacketData{Denom: denom, Amount: "1000", Sender: "sender", Receiver: core.ModuleAddress.String(), Memo: internalPayloadMemo(user1.String())}
+	ccp, err := adaptertypes.NewIBCCrossChainPacket(srcPort, chans[second], verif.EncodeICS20(d2))
+	must(err)
+	op, aerr := w.K.Adapter().AdaptPacket(w.Ctx, ccID, ccp)
+	verif.Assert((aerr == nil && op != nil) == returning2, "adapter-accepts-iff-returning-over-this-packets-channel")
+	a2 := send(chans[second], 2)
+	if returning2 {
+		verif.Cover("accepted")
+		verif.Assert(a2.Success(), "returning-token-is-accepted-whatever-came-before")
+	} else {
+		verif.Cover("refused")
+		verif.Assert(!a2.Success(), "token-not-returning-over-this-channel-is-refused-whatever-came-before")
+		verif.Assert(len(w.Int.reqs) == 0, "refused-packet-is-not-forwarded")
+	}
+}
